@@ -41,9 +41,88 @@ func baseName(e ast.Expr) string {
 
 var markers = map[string]bool{"ShootNew": true, "ShootEnum": true, "ShootRest": true, "ShootMap": true}
 
+// rhsKind: the syntactic shape testNode looks at
+func rhsKind(e ast.Expr) string {
+	switch e.(type) {
+	case *ast.StructType:
+		return "struct"
+	case *ast.InterfaceType:
+		return "iface"
+	}
+	return "other"
+}
+
+func specLine(out *bufio.Writer, path, tag string, ts *ast.TypeSpec) {
+	var tps []string
+	if ts.TypeParams != nil {
+		for _, f := range ts.TypeParams.List {
+			for _, n := range f.Names {
+				tps = append(tps, n.Name)
+			}
+		}
+	}
+	alias := "0"
+	if ts.Assign.IsValid() {
+		alias = "1"
+	}
+	fmt.Fprintf(out, "%s\t%s\t%s\t%s\t%s\t%s\n", path, tag, ts.Name.Name, rhsKind(ts.Type), alias, strings.Join(tps, ","))
+}
+
+// dumpDecls (-decls): the type specs of a file as the skeleton of harness/cligen.py sees them:
+//
+//	<path>\tTYPE\t<name>\t<struct|iface|other>\t<alias 0|1>\t<type params>     package level, source order
+//	<path>\tLOCAL\t...                                                        declared inside a function body
+//	<path>\tCONST\t<type identifier or ->\t<name>                            package-level constants
+func dumpDecls(out *bufio.Writer, path string) {
+	fset := token.NewFileSet()
+	f, err := parser.ParseFile(fset, path, nil, parser.ParseComments)
+	if err != nil || f == nil {
+		fmt.Fprintf(out, "%s\tPARSE_ERROR\t%v\n", path, err)
+		return
+	}
+	for _, d := range f.Decls {
+		switch d := d.(type) {
+		case *ast.GenDecl:
+			for _, sp := range d.Specs {
+				switch sp := sp.(type) {
+				case *ast.TypeSpec:
+					specLine(out, path, "TYPE", sp)
+				case *ast.ValueSpec:
+					if d.Tok == token.CONST {
+						ty := "-"
+						if id, ok := sp.Type.(*ast.Ident); ok {
+							ty = id.Name
+						}
+						for _, n := range sp.Names {
+							fmt.Fprintf(out, "%s\tCONST\t%s\t%s\n", path, ty, n.Name)
+						}
+					}
+				}
+			}
+		case *ast.FuncDecl:
+			ast.Inspect(d, func(n ast.Node) bool {
+				if ts, ok := n.(*ast.TypeSpec); ok {
+					specLine(out, path, "LOCAL", ts)
+				}
+				return true
+			})
+		}
+	}
+	fmt.Fprintf(out, "%s\tEND\t%s\n", path, f.Name.Name)
+}
+
 func main() {
 	out := bufio.NewWriter(os.Stdout)
 	defer out.Flush()
+	if len(os.Args) > 1 && os.Args[1] == "-decls" {
+		sc := bufio.NewScanner(os.Stdin)
+		for sc.Scan() {
+			if p := strings.TrimSpace(sc.Text()); p != "" {
+				dumpDecls(out, p)
+			}
+		}
+		return
+	}
 	sc := bufio.NewScanner(os.Stdin)
 	for sc.Scan() {
 		path := strings.TrimSpace(sc.Text())
